@@ -56,6 +56,16 @@ pub fn main() -> i32 {
             cur = 0;
             continue;
         }
+        if let Some(q) = l.strip_prefix(".crashquery ") {
+            // copy the directory as a kill would leave it, open the copy (recovery runs) and run one query there
+            let cp = dir.join(&format!("crashcopy{}", handles.len()));
+            vcore::tmp::copy_dir(&path, &cp).expect("copy");
+            match Database::open(&cp) {
+                Ok(d) => print!("(recovered copy) {}", fmt_result(&d.execute(q))),
+                Err(e) => println!("(recovered copy) open failed: {}", e),
+            }
+            continue;
+        }
         if let Some(n) = l.strip_prefix(".h ") {
             let n: usize = n.trim().parse().unwrap_or(0);
             while handles.len() <= n {
